@@ -16,7 +16,7 @@ Import ListNotations.
 Open Scope Z_scope.
 
 Definition lit (sigma : Z -> bool) (s : Z) : bool :=
-  if Z.ltb 0 s then sigma s else negb (sigma (- s)).
+  if Z.leb 0 s then sigma s else negb (sigma (- s)).
 
 Fixpoint geval (sigma rho : Z -> bool) (g : geom) : bool :=
   match g with
